@@ -109,7 +109,15 @@ class SeriesSchemaValidate(Contract):
             out = pa.SeriesSchema(int, coerce=True, index=pa.Index(int, coerce=True)).validate(s)
             after = (s.dtype, s.index.dtype)
             bad = str(out.dtype) != "int64" or before != after
-            return bad, {"returned dtype": str(out.dtype), "caller's index dtype before/after": [str(before[1]), str(after[1])]}
+            obs = {"returned dtype": str(out.dtype), "caller's index dtype before/after": [str(before[1]), str(after[1])]}
+            # C06: an index label is an attribute of a Series: a label may be named like an attribute of another library's series
+            for label in ("dask", "map_partitions"):
+                try:
+                    pa.SeriesSchema(int).validate(pd.Series([1, 2], index=[label, "b"]))
+                except Exception as e:  # noqa: BLE001
+                    bad = True
+                    obs[f"Series with an index label {label!r}"] = f"raised {type(e).__name__}: {e}"[:160]
+            return bad, obs
 
         return thunk
 
